@@ -80,13 +80,13 @@ PROPS = {
             'that UnsettledMessage::settle_with_state is actually invoked on the entry removed by LinkRelay::on_incoming_disposition is visible in the extracted text but is not an obligation: a by-value call leaves no ghost trace; what IS proved: the entry removed is the one under the disposition\'s tag, and settle_with_state resolves its own channel with exactly the state given']),
     'C03': dict(
         units=['SERHDR', 'SERSTR', 'READERS', 'MESSAGE'], kani=K_RT, level='proof', title='Codec round trip (fixed- and variable-width primitives, compound headers)',
-        lemmas={'READERS': ['lemma_var_round_trip', 'lemma_be32_inverse']},
+        lemmas={'READERS': ['lemma_var_round_trip', 'lemma_be32_inverse'], 'MESSAGE': ['lemma_message_round_trip', 'lemma_run', 'lemma_fold_concat', 'lemma_fold_opt']},
         assumptions=[VARW,
             'PROVED for every value: the fixed-width primitives listed in the obligations (Kani harnesses, loop-free / fully unwound over the full domain) and the compound header writers (Verus)',
             'BOUNDED ONLY (listed under bounded_obligations, never counted as proved): decoders on short byte strings, compound headers with hostile size/count bytes',
             'NOT DECIDED: arbitrary nesting of lists/maps/arrays/described values (the element loop of the serde visitor chain), the derive-macro output for the typed protocol items (performatives, SASL bodies, delivery states, messages) -- serde visitor code is outside the Verus subset and too large for CBMC beyond small bounds',
             'compound header writers: the call-site fact count <= byte length (every element occupies at least one byte in this implementation) is assumed; the serde SerializeSeq/Map impls that call them are not under contract',
-            'Message::serialize is proved to hand the serializer exactly the sections that are set, in the AMQP order; the Message deserialize visitor (which must accept the same sequence) is not under contract']),
+            'messages: Message::serialize is proved to hand the serializer exactly the sections that are set, in the AMQP order, and the Message visitor (visit_seq, FieldVisitor::visit_u64) to rebuild the same sections from them (lemma_message_round_trip, all 64 presence combinations, body descriptors 0x75-0x77); the encoding of each section value (derive output), the body types (incl. batches of Data/AmqpSequence) and symbolic descriptors (visit_str) are not under contract']),
     'C05': dict(
         units=['SERHDR', 'SERSTR', 'READERS'], kani=K_RT + K_DEC, level='proof', title='Valid encodings / every variant accepted (fixed- and variable-width primitives, compound headers)',
         lemmas={'READERS': ['lemma_var_round_trip', 'lemma_be32_inverse']},
